@@ -259,3 +259,10 @@ Section Pop.
     | _, _ => false
     end.
 End Pop.
+
+(* ---------- the model-based optimizers (Bayesian, forest, TPE, Lipschitz): the position-producing step ----------
+   a proposal is a member of the candidate set pos_comb (Smbo.proposal_ok); every candidate was built from the position grid and filtered
+   by the constraints when all_pos_comb was created -- the correspondence unit checks `forallb (emit_b sp cons) comb` on every observed
+   candidate set *)
+Definition emit_b (sp : space) (cons : values -> bool) (p : pos) : bool :=
+  in_box_b sp p && match feasible sp cons p with Ok true => true | _ => false end.
